@@ -80,12 +80,13 @@ Theorem C14_intersect_spec e t fl this that :
 Proof. exact (intersect_spec e t fl this that). Qed.
 Print Assumptions C14_intersect_spec.
 
-Theorem C14_union_map_spec ord l kvs that ks2 : (forall ks, Permutation (ord ks) ks) ->
-  map_keys that = Some ks2 -> Forall keyable (map fst kvs) -> Forall keyable ks2 -> pw_ne go_eqeq (map fst kvs) ->
-  exists K, union_map_m ord (VMap l kvs) that = Ok (VMap l (unit_entries K))
+Theorem C14_union_map_spec fl ord this that ks1 ks2 : (forall ks, Permutation (ord ks) ks) ->
+  map_keys this = Some ks1 -> map_keys that = Some ks2 ->
+  Forall keyable ks1 -> Forall keyable ks2 -> pw_ne go_eqeq ks1 ->
+  exists K, union_map_m fl ord this that = Ok (VMap (map_label fl this) (unit_entries K))
     /\ pw_ne go_eqeq K
-    /\ (forall z, keyable z -> mem go_eqeq z K = mem go_eqeq z (map fst kvs) || mem go_eqeq z ks2).
-Proof. exact (union_map_spec ord l kvs that ks2). Qed.
+    /\ (forall z, keyable z -> mem go_eqeq z K = mem go_eqeq z ks1 || mem go_eqeq z ks2).
+Proof. exact (union_map_spec fl ord this that ks1 ks2). Qed.
 Print Assumptions C14_union_map_spec.
 
 Theorem C14_intersect_map_spec fl ord this that ks1 ks2 : (forall ks, Permutation (ord ks) ks) ->
@@ -96,10 +97,11 @@ Theorem C14_intersect_map_spec fl ord this that ks1 ks2 : (forall ks, Permutatio
 Proof. exact (intersect_map_spec fl ord this that ks1 ks2). Qed.
 Print Assumptions C14_intersect_map_spec.
 
-Theorem C14_union_map_nil_refuted :
-  union_map_m (fun ks => ks) VNilM (VMap 1 (unit_entries [VInt 1%Z])) = Pan.
-Proof. exact union_map_nil_refuted. Qed.
-Print Assumptions C14_union_map_nil_refuted.
+Theorem C14_union_map_nil_old_refuted :
+  union_map_old_m 0 (fun ks => ks) VNilM (VMap 1 (unit_entries [VInt 1%Z])) = Pan
+  /\ union_map_m 0 (fun ks => ks) VNilM (VMap 1 (unit_entries [VInt 1%Z])) = Ok (VMap 0 (unit_entries [VInt 1%Z])).
+Proof. exact union_map_nil_old_refuted. Qed.
+Print Assumptions C14_union_map_nil_old_refuted.
 
 (* ---------- the predicate functions.  A predicate [p log x] may depend on the arguments of its
    earlier calls ([log], oldest first); [answers p [] es] are its answers when it is called on
